@@ -1,9 +1,11 @@
 """C12 -- NoExec, NoFileWrites and NoFileReads confine every program.
 
 spec/IOStreams.tla (shared with C13); MC_IOStreams with Sandbox = TRUE (the confinement invariants over all
-histories x 8 flag sets x custom open), Gen_IOStreams family "sandbox" (every I/O action, pair and
-close/reopen triple under every configuration, replayed with a logging OpenFile, a sentinel-writing shell and
-a directory listing), Trace_IOStreams (random longer runs recorded from the real interpreter), and a go/ast
+histories x 8 flag sets x custom open, and over sessions of two Execute calls on one Interpreter with a
+configuration each), Gen_IOStreams family "sandbox" (every I/O action, pair and close/reopen triple under every
+configuration, replayed with a logging OpenFile, a sentinel-writing shell and a directory listing; and sessions:
+two Execute calls on ONE interp.Interpreter whose configurations differ, every open / process start / refusal of
+the second run judged against the configuration of THAT Execute), Trace_IOStreams (random longer runs recorded from the real interpreter), and a go/ast
 scan of package interp for open-file / os/exec call sites the model does not know (exit 2, never a violation).
 """
 import copy, json, os
@@ -16,23 +18,54 @@ def run(ctx):
     ctx.rule = ('a case is one run: configuration (3 deny flags, custom OpenFile on/off) + a history of 1-3 I/O actions '
                 '(print to stdout / > / >> / |, close, fflush, system, getline < file, cmd | getline, file operand; names '
                 'literal or computed at run time, incl. "-", /dev/stdout, /dev/stderr, other-direction and close-then-reopen) '
-                'exported by TLC from Gen_IOStreams, or a 3-8 action random run recorded from the real interpreter; distinct by '
-                'content; non-trivial when at least one deny flag is set and the history performs I/O')
+                'exported by TLC from Gen_IOStreams; or a session: two Execute calls on one reusable interp.Interpreter, a first '
+                'run (nothing / print > file / getline < file) under one configuration, then one I/O action under a configuration '
+                'that differs in one flag or in the presence of the custom OpenFile (thorough: in anything; two actions), the '
+                'opens, process starts, refusals, files and results of EACH run compared with the model\'s run started by '
+                'NextRun(previous, that Execute\'s Config); or a 3-8 action random run / a 2-3 run session recorded from the real '
+                'interpreter; distinct by content; non-trivial when at least one deny flag is set and the history performs I/O '
+                '(session: when its last run performs I/O)')
     ctx.assumptions += iocommon.ASSUMPTIONS + [
+        'sessions: one program serves all runs of a session (it branches on a variable set through Config.Vars); the native '
+        'functions and the shell wrapper are the same in every run (Config.Funcs must not change between Execute calls), each run '
+        'has its own Config.OpenFile closure, output writers, standard input and flags; the work directory is shared; a call, during '
+        'run k, of the OpenFile function given to an earlier Execute counts as "not opened through the configured function"',
+        'quick tier sessions: the second configuration differs from the first in exactly one of NoExec / NoFileWrites / NoFileReads / '
+        'custom OpenFile; where NoExec is off in the second run, process-starting actions are used only after an empty first run that '
+        'had NoExec on; the thorough tier uses every pair of different configurations and second runs of up to two actions',
         'quick tier: where NoExec is off, process-starting actions are replayed on their own only (a process start costs ~100 ms here); the thorough tier lifts this',
         'the go/ast scan only compares the call sites of p.openFile / execShell / exec.Command* / os.Open* in package interp with '
         'IOStreams!CallSites; it is not a proof that no other I/O path exists',
     ]
     ctx.build()
     # 1. model: confinement invariants
-    mc = ctx.cfg('MC_IOStreams', constants={'Depth': 2 if q else 3, 'Sandbox': 'TRUE', 'FailMax': 0})
-    ctx.tlc('MC_IOStreams', mc, timeout=1500, heap='8g', capture='callsites.ndjson')
+    skip_model = bool(os.environ.get('VERIF_SKIP_MODEL'))   # development aid for mutant runs: the model does not depend on the code
+    if skip_model:
+        ctx.notes.append('model run and call-site scan skipped (VERIF_SKIP_MODEL)')
+    else:
+        mc = ctx.cfg('MC_IOStreams', constants={'Depth': 2 if q else 3, 'Sandbox': 'TRUE', 'FailMax': 0, 'MaxRuns': 2})
+        ctx.tlc('MC_IOStreams', mc, timeout=1500, heap='8g', capture='callsites.ndjson')
     # 2. spec -> code
-    gen = ctx.cfg('Gen_IOStreams', name='Gen_sandbox', constants={'Family': '"sandbox"', 'Depth': 3, 'Rich': 1 if q else 2})
-    ctx.tlc('Gen_IOStreams', gen, capture='cases.ndjson', timeout=900)
+    gen = ctx.cfg('Gen_IOStreams', name='Gen_sandbox', constants={'Family': '"sandbox"', 'Depth': 3, 'Rich': 1 if q else 2, 'Runs': 2})
+    ctx.tlc('Gen_IOStreams', gen, capture='cases.ndjson', timeout=1800, heap='8g')
     ctx.cov['exhaustive'] = True
-    iocommon.replay(ctx, 'cases.ndjson', 'sandbox', iocommon.corrupt, 2000)
+    nses = iocommon.split_cases(ctx, 'cases.ndjson', 'sessions.ndjson', lambda c: c.get('fam') == 'session')
+    if nses < 1000:
+        raise MachineryError(f'Gen_IOStreams exported only {nses} sessions (two Execute calls on one Interpreter)')
+    ctx.log(f'cases.ndjson: {nses} of the exported behaviours are sessions on one Interpreter')
+    s = iocommon.replay(ctx, 'cases.ndjson', 'sandbox', iocommon.corrupt, 2000)
+    if all(sig in iocommon.known_sigs(ctx) for sig in s['sig_counts']):
+        ctx.selftest(ctx.path('sessions.ndjson'), ctx.pid, iocommon.corrupt_session, 'sessions')
+    if not q:
+        # sessions of THREE Execute calls on one Interpreter (single-flip configurations, one action in the later runs)
+        gen3 = ctx.cfg('Gen_IOStreams', name='Gen_sessions3', constants={'Family': '"sandbox"', 'Depth': 3, 'Rich': 1, 'Runs': 3})
+        ctx.tlc('Gen_IOStreams', gen3, capture='cases3_all.ndjson', timeout=1800, heap='8g')
+        n3 = iocommon.split_cases(ctx, 'cases3_all.ndjson', 'sessions3.ndjson',
+                                  lambda c: c.get('fam') == 'session' and len(c['runs']) == 3)
+        ctx.log(f'cases3_all.ndjson: {n3} sessions of three runs')
+        iocommon.replay(ctx, 'sessions3.ndjson', 'sessions-of-3', iocommon.corrupt_session, 2000)
     # 3. code -> spec
     iocommon.traces(ctx, 'C12', 60 if q else 400)
     # 4. the model's action list vs the I/O call sites of the tree (last: a violation found above is the better answer)
-    iocommon.scan_callsites(ctx)
+    if not skip_model:
+        iocommon.scan_callsites(ctx)
